@@ -5,6 +5,10 @@ proof side    : Props/C05.lean (wiring_* theorems, gridop_decomposition_independ
                 run; exp / tanh / cos / sqrt / pi uninterpreted: closed formulas of n0, Ti, Te, perturbation, f_eq, n0deriv_normalised, init_f, and the
                 per-slice clauses gen_init_f_flux_eq / gen_init_f_pol_eq / gen_init_f_vpar_eq / gen_feq_vector_eq: every entry of the output is the
                 scalar function at that entry's OWN coordinates, nothing else is written)
+                Props/C05Gen2.lean (tie by translation of the GRID-LEVEL LOOPS: harness/translate_gridops.py regenerates Generated/GridOpsGen.lean from
+                gridStep* / getPerturbedRho / getRho / solveEquation / initialise_* on every run; gen_*_eq: the generated call lists, read through the table
+                conventions of Lemmas/GridOpsGen.lean, are the call lists of Model/Wiring.lean for every layout and process; gen_wiring_*: the wiring_*
+                theorems hold of the generated loops; Props/C05Gen2Examples.lean: instances recorded from the real methods, compared again on every run)
 correspondence: (i) wiring traces — the real grid-level operators run on every rank of a forced process grid with their kernels wrapped:
                     every kernel call is recorded as (global slice indices, global indices at which parameters/table rows were taken) and
                     compared exactly with the call list of Model/Wiring.lean;
@@ -562,13 +566,19 @@ def run(chk):
         chk.proof_broken.append({'theorem': 'translator (harness/translate_driver.py) refused the source of the time loop', 'log': (_tr.stdout + _tr.stderr)[-800:]})
     # Props/C05Gen.lean is about Generated/InitFuncsGen.lean = pygyro/initialisation/initialiser_funcs.py as the source says it NOW
     common.run_translator(chk, 'translate_pure.py', '--only', 'initfuncs')
-    chk.proof_side(build=not getattr(chk, 'no_build', False), extra_props=('C15Extra', 'C05Extra', 'C05Gen'))
+    # Props/C05Gen2.lean is about Generated/GridOpsGen.lean = the grid-level loops (gridStep*, getPerturbedRho, solveEquation, initialise_*) as the source
+    # says them NOW: generated call lists = Model/Wiring.lean, so the wiring_* theorems hold of the generated loops
+    common.run_translator(chk, 'translate_gridops.py')
+    chk.proof_side(build=not getattr(chk, 'no_build', False), extra_props=('C15Extra', 'C05Extra', 'C05Gen', 'C05Gen2'))
     stats = {'bit_identical': 0, 'compared': 0}
     drv = common.LeanDriver('C05.lean')
     try:
         part_wiring(chk, drv)
     finally:
         drv.close()
+    # the kernel-checked instances of the generated loops (Props/C05Gen2Examples.lean) are what the REAL methods do on a 2 x 2 process grid
+    import gridops_examples
+    gridops_examples.check(chk)
     part_operators(chk, stats)
     part_driver(chk, stats)
     chk.notes['bit_identity'] = stats
